@@ -281,3 +281,40 @@ REG.add(Contract("get_evaluable_architecture_for_module_objects", module=M_PT, v
                  returns=EG, modifies=["ghost_ctor"], requires=[_GRAMMAR],
                  raises=_entry_raises(_RD, _MD), ensures_on_raise=["ghost_ctor.calls == old(ghost_ctor).calls"],
                  ensures=_entry_post(_RD, _MD), note=_GRAMMAR_NOTE, properties=["C04", "C13"]))
+
+# ---------------------------------------------------------------- parser.py: Parser._get_module_name, string view (C04): the module name of a path
+# Callers (Parser.parse, _parse_file) use the assumed contract `Parser._get_module_name` (c_parser.py: result == mod_name(root, path), never raises). Here the REAL
+# function is verified against the string-level statement of what mod_name IS: the root directory's own name for the root itself, else root name + '.' + the path
+# relative to the root with the file suffix removed and every separator replaced by '.'. Linked by name (ModNameDef is the definition of the otherwise
+# uninterpreted spec function mod_name). What remains assumed in the callers' contract: paths met during a scan lie below the source root (no ValueError).
+_f_strip_suffix = z3.Function("path_without_suffix", PT, PT)
+REG.specfuns["path_without_suffix"] = lambda eng, st, p: V(("opaque", "Path"), _f_strip_suffix(p.x))
+REG.add(Contract("Path.with_suffix", status="assumed", kind="method", params=dict(self="Opaque[Path]", suffix="Str"), returns="Opaque[Path]", requires=["suffix == ''"],
+                 defn="path_without_suffix(self)", note="pathlib: with_suffix('') removes the final component's suffix (only this use is modelled)"))
+REG.macro("mod_name_text", ["root", "p"],
+          "path_name(root) if path_str(path_rel(p, root)) == '.' else path_name(root) + '.' + dotted_path(path_without_suffix(path_rel(p, root)))")
+
+
+@REG.specfun("ModNameDef", schema=True)
+def _mod_name_def(eng, st, root, p):
+    """Definition (ground instance) of the spec function mod_name(root, p) used by the contracts of Parser.parse / _parse_file."""
+    return vbool(c_parser.f_modname(root.x, p.x) == eng.ev1(REG.parse_spec("mod_name_text(mn_root, mn_p)"), st).x)
+
+
+def _mod_name_def_wrapped(eng, st, root, p):
+    saved = dict(eng.bound)
+    eng.bound.update(dict(mn_root=root, mn_p=p))
+    try:
+        return _mod_name_def(eng, st, root, p)
+    finally:
+        eng.bound = saved
+
+
+REG.specfuns["ModNameDef"] = _mod_name_def_wrapped
+REG.add(Contract("Parser._get_module_name@str", module=M_PA, qualname="Parser._get_module_name", kind="method", view="string",
+                 params=dict(self="Parser", path="Opaque[Path]"), returns="Str",
+                 raises=[("ValueError", "not path_below(path, self._source_root)")],
+                 use_at_start=["ModNameDef(self._source_root, path)"],
+                 # C04: named from root_path: root name, '.', dotted relative path without the file suffix
+                 ensures=["result == mod_name_text(self._source_root, path)", "result == mod_name(self._source_root, path)"],
+                 properties=["C04"]))
